@@ -22,7 +22,7 @@ for pid in pids:
     os.makedirs(w + '/out/A'); os.makedirs(w + '/out/B')
     d = props[pid]
     prev = []
-    for v in ('A', 'B', 'A2', 'B2', 'A3', 'B3'):
+    for v in ('A', 'B', 'A2', 'B2', 'A3', 'B3', 'A4', 'B4'):
         try:
             prev.append('  - ' + json.load(open('/verif/seeded/%s_%s/meta.json' % (pid, v))).get('title', ''))
         except Exception:
